@@ -238,6 +238,16 @@ E('cache-n2', lambda s: _cache(s, n=2), stream=0, group='passthrough')
 E('progress', lambda s: etl.progress(s, 2, out=_Sink()), stream=0, group='passthrough')
 E('log_progress', lambda s: etl.log_progress(s, 2, logger=_null_logger), stream=0, group='passthrough')
 E('clock', lambda s: etl.clock(s), stream=0, group='passthrough')
+def _memsink():
+    from petl.io.sources import MemorySource
+    return MemorySource()
+
+
+E('teecsv', lambda s: etl.teecsv(s, _memsink()), stream=0, tee=True, group='passthrough')
+E('teetsv', lambda s: etl.teetsv(s, _memsink(), write_header=False), stream=0, tee=True, group='passthrough')
+E('teepickle', lambda s: etl.teepickle(s, _memsink()), stream=0, tee=True, group='passthrough')
+E('teetext', lambda s: etl.teetext(s, _memsink(), template='{f0}|{f1}\n', prologue='P\n', epilogue='E\n'), stream=0, tee=True, group='passthrough')
+E('teehtml', lambda s: etl.teehtml(s, _memsink(), caption='c'), stream=0, tee=True, group='passthrough')
 E('fromdicts(dicts)', lambda s: etl.fromdicts(etl.dicts(s), header=['f0', 'f1', 'f2']), stream=0, group='io')
 E('fromcolumns(columns)', lambda s: etl.fromcolumns(list(etl.columns(s).values()), header=['f0', 'f1', 'f2']), group='io', c01=True)
 # lookups
